@@ -168,6 +168,9 @@ impl<T> SocksRequest<T> {
         socket.write_u16(dport).await.context("dport")?;
         socket.write(&dst).await.context("dport")?;
         let cid = auth.auth_v4(&self.auth).await?;
+        if cid.as_bytes().contains(&0) || target.map_or(false, |t| t.contains(&0)) {
+            bail!("NUL byte can not be encoded in socks4 request: {}", self.target)
+        }
         socket.write(cid.as_bytes()).await.context("cid")?;
         socket.write_u8(0).await.context("cid")?;
         if let Some(target) = target {
